@@ -17,7 +17,7 @@ pub fn prop() -> Prop {
     Prop {
         id: "C09",
         level: "exploration",
-        rule: "every program of the scope slice (declarations with distinct literals so that the value read identifies the declaration resolved, assignments, prints, blocks, als, a one-shot loop, named functions f(p) in blocks and in functions, calls, over the names a, b, f, p) up to N nodes, plus the nested-function directed family and the block-function family (functions defined in top-level blocks / als branches / loop bodies nested to depth 3 with every subset of levels declaring the same name, reading and writing it, called inside the scope); for each base program the reference interpreter's outcome, and exhaustively: (r) every consistent renaming of one declaration and exactly the uses the model binds to it to a fresh name, (s) insertion of an unused `stel z = 0` before every statement of every statement list, and of a shadowing `stel a = 9` wherever no later mention of `a` follows in that list, both of which must leave value, output and error unchanged; (u) replacement of each single identifier occurrence by an undeclared name, which must give a reference error with EMPTY output. Non-trivial = the base program declares at least one name and is defined by the model; distinct = distinct texts",
+        rule: "every program of the scope slice (declarations with distinct literals so that the value read identifies the declaration resolved, assignments, prints, blocks, als, a one-shot loop, named functions f(p) in blocks and in functions, calls, over the names a, b, f, p) up to N nodes, plus the nested-function directed family and the block-function family (functions defined in top-level blocks / als branches / loop bodies nested to depth 3 with every subset of levels declaring the same name, reading and writing it, called inside the scope); for each base program the reference interpreter's outcome, and exhaustively: (r) every consistent renaming of one declaration and exactly the uses the model binds to it to a fresh name, (s) insertion of an unused `stel z = 0` before every statement of every statement list, and of a shadowing `stel a = 9` wherever no later mention of `a` follows in that list, both of which must leave value, output and error unchanged; (u) replacement of each single identifier occurrence by an undeclared name, which must give a reference error with EMPTY output; (d) an undeclared name in 11 kinds of use x 12 kinds of code that can never run (after antwoord / stop / volgende, in branches not taken, in loops that never run, in functions never called, after output, after a failing statement) must be refused all the same. Non-trivial = the base program declares at least one name and is defined by the model; distinct = distinct texts",
         assumptions: &["static resolution rules of refint::Resolver (DESIGN 4.2 Names) are the specification", "U1/U2/U6/U7 programs are excluded from the base set"],
         run,
         replay,
@@ -234,6 +234,59 @@ fn run(sh: &mut Shard) {
             sh.count("family:directed-redeclaration");
             let n = check_program(sh, &prog);
             sh.add("runs", n);
+        }
+    }
+    // an undeclared name ANYWHERE is refused before anything runs: also in code that can never run
+    {
+        use crate::gen::*;
+        use nederlang::verif::{Expr, Operator};
+        let uses: Vec<Stmt> = vec![
+            es(id("zz")),
+            print1(id("zz")),
+            es(assign(id("zz"), int(1))),
+            es(calln("zz", vec![])),
+            es(array(vec![int(1), id("zz")])),
+            let_("q", infix(int(1), Operator::Add, id("zz"))),
+            es(index(id("arr"), id("zz"))),
+            es(func("inner", &[], vec![es(id("zz"))])),
+            es(iff(id("zz"), vec![], None)),
+            es(whil(boolean(false), vec![es(id("zz"))])),
+            Stmt::Return(id("zz")),
+        ];
+        type Tpl = fn(Stmt) -> Vec<Stmt>;
+        let templates: Vec<(&str, Tpl)> = vec![
+            ("after antwoord", |h| vec![es(func("f", &["x"], vec![Stmt::Return(id("x")), h])), es(calln("f", vec![int(1)]))]),
+            ("after antwoord in both branches", |h| vec![es(func("f", &["x"], vec![es(iff(id("x"), vec![Stmt::Return(int(1))], Some(vec![Stmt::Return(int(2))]))), h])), es(calln("f", vec![boolean(true)]))]),
+            ("after antwoord in an inner block", |h| vec![es(func("f", &[], vec![Stmt::Block(vec![Stmt::Return(int(1))]), h])), es(calln("f", vec![]))]),
+            ("after stop", |h| vec![es(func("f", &[], vec![es(whil(boolean(true), vec![Stmt::Break, h])), es(int(1))])), es(calln("f", vec![]))]),
+            ("after volgende", |h| vec![es(func("f", &[], vec![let_("i", int(0)), es(whil(infix(id("i"), Operator::Lt, int(2)), vec![es(op_assign("i", Operator::Add, int(1))), Stmt::Continue, h])), es(id("i"))])), es(calln("f", vec![]))]),
+            ("in a branch not taken", |h| vec![es(func("f", &[], vec![es(iff(boolean(false), vec![h], None)), es(int(1))])), es(calln("f", vec![]))]),
+            ("in the alternative not taken", |h| vec![es(func("f", &[], vec![es(iff(boolean(true), vec![es(int(1))], Some(vec![h]))), es(int(1))])), es(calln("f", vec![]))]),
+            ("in a loop that never runs", |h| vec![es(func("f", &[], vec![es(whil(boolean(false), vec![h])), es(int(1))])), es(calln("f", vec![]))]),
+            ("in a function that is never called", |h| vec![es(func("nooit", &[], vec![h, es(int(0))])), es(int(1))]),
+            ("after output", |h| vec![print1(int(1)), es(func("f", &[], vec![print1(int(2)), h, es(int(0))])), es(calln("f", vec![]))]),
+            ("after a statement that fails at run time", |h| vec![es(func("f", &[], vec![es(infix(int(1), Operator::Add, boolean(true))), h, es(int(0))])), es(calln("f", vec![]))]),
+            ("after a top-level failure", |h| vec![es(infix(int(1), Operator::Add, boolean(true))), es(func("f", &[], vec![h, es(int(0))]))]),
+        ];
+        for (where_, tpl) in &templates {
+            for u in &uses {
+                if !sh.mine() {
+                    continue;
+                }
+                let mut prog = vec![let_("arr", array(vec![int(1)]))];
+                prog.extend(tpl(u.clone()));
+                sh.begin(&|| printer::program(&prog));
+                sh.count("family:undeclared-in-dead-code");
+                let _ = where_;
+                if let Some(r) = differential(sh, "undeclared", &prog, RunOpts { budget: Some(10_000), ledger: false, trace: false, render: true }) {
+                    if !matches!(r.model.end, End::Error(_)) || !r.model.output.is_empty() {
+                        sh.machinery(format!("the model does not refuse {} before any output", printer::program(&prog)));
+                        return;
+                    }
+                    sh.nontrivial(&printer::program(&prog));
+                    let _: Option<Expr> = None;
+                }
+            }
         }
     }
     let sl = slices::scope_slice();
